@@ -364,6 +364,15 @@ add(
     H("s_float_fast_all", "smt", ["C02", "C07", "C08", "C01"], SMT_FUNCS,
       "every decimal exponent in -345..=345 x every significand 1 <= w < 10^19 x sign; 120 s per query",
       stubs=SMT_CUTS, args=["float_check.py", "--emin", "-345", "--emax", "345", _L, "--jobs", "14", "--timeout-ms", "120000"], tier=T, cost=1800, timeout=7200),
+    H("s_float_trunc_sampled", "smt", ["C07"], SMT_FUNCS,
+      "truncated significands (trunc == true, 10^16 <= w < 10^19: literals with more digits than the scanner keeps) at decimal exponents -200, -100, -50, 50, 100, 200, 280: whenever "
+      "parse_float answers from the two Eisel-Lemire results for w and w+1, that answer is the rounding of w*10^e and of (w+1)*10^e, hence of every value in between; 60 s per query",
+      stubs=SMT_CUTS + ["model: <BiasedFp as PartialEq>::ne field-wise"], args=["float_check.py", "--exps=-200,-100,-50,50,100,200,280", "--lemire=-307..345", "--neg", "false", "--trunc", "--jobs", "7", "--timeout-ms", "60000"],
+      cost=60, timeout=850),
+    H("s_float_trunc_all", "smt", ["C07"], SMT_FUNCS,
+      "truncated significands (trunc == true, 10^16 <= w < 10^19) at every decimal exponent -307..=345; 120 s per query",
+      stubs=SMT_CUTS + ["model: <BiasedFp as PartialEq>::ne field-wise"], args=["float_check.py", "--emin", "-307", "--emax", "345", "--lemire=-307..345", "--neg", "false", "--trunc", "--jobs", "14", "--timeout-ms", "120000"],
+      tier=T, cost=3000, timeout=10800),
     H("s_simd_str2int", "smt", ["C07", "C17"], ["sonic_number::arch::x86_64::simd_str2int (the SSE digit reader selected with avx2+pclmulqdq, i.e. by /repo's target-cpu=native)",
                                                "macros packadd_1/2/4, simd_add_5_8, simd_add_9_15, simd_add_16"],
       "need 1..=16 x position 1..=16 of the first non-digit (16 = none) x its class (three byte ranges) x every value of all 16 bytes; result == (decimal value of the first min(need, p) digits, min(need, p))",
